@@ -21,11 +21,12 @@ Durs == {NONEV, 0, 1, 2, INFV}
 SomeTables == {<<<<2, 1>>, <<1, 2>>>>, <<<<2, 0 - 1>>, <<0 - 1, 1>>>>, <<<<2, 2>>, <<0, 1>>>>}
 Init == /\ \E tr \in (IF Tables = "all" THEN [1..M -> [1..N -> T]] ELSE SomeTables), te \in [1..N -> {0, 1, 2, 101, 102}],
              cd \in [1..N -> Durs], idr \in {<<ABSENTV, ABSENTV>>, <<1, 2>>},
-             cf \in {<<<<0, 0>>, <<0, 0>>>>, <<<<0, 1>>, <<1, 0>>>>} :
+             cf \in {<<<<0, 0>>, <<0, 0>>>>, <<<<0, 1>>, <<1, 0>>>>}, xb \in {<<0, 0>>, <<0, 1>>} :
+             /\ (xb # <<0, 0>> => (idr = <<ABSENTV, ABSENTV>> /\ cf = <<<<0, 0>>, <<0, 0>>>>))
              /\ \A s \in 1..N : te[s] = 0 => (cd[s] = NONEV /\ idr[s] = ABSENTV)
              /\ \A s \in 1..N : te[s] \in 1..M => F!Known([n |-> N, m |-> M, trans |-> tr, any |-> <<0 - 1, 0 - 1>>], te[s])
              /\ cfg = [n |-> N, m |-> M, trans |-> tr, any |-> <<0 - 1, 0 - 1>>, cf |-> cf,
-                       tev |-> te, cdur |-> cd, idur |-> idr, init |-> 1]
+                       tev |-> te, cdur |-> cd, idur |-> idr, init |-> 1, xbad |-> xb]
         /\ w = F!World(0, {}, 0, 1, "none") /\ tm = F!NoTimer /\ now = 0
         /\ inited = FALSE /\ fired = {} /\ stale = FALSE /\ stopped = FALSE /\ dead = FALSE /\ hist = <<>>
 
